@@ -71,6 +71,16 @@ var interpPkgs = map[string]bool{
 
 func interpretedPkg(path string) bool { return interpPkgs[path] }
 
+// pure helper functions of packages that are otherwise not interpreted
+var interpFuncs = map[string]bool{
+	"(*gopkg.in/yaml.v3.Node).ShortTag":        true,
+	"(*gopkg.in/yaml.v3.Node).LongTag":         true,
+	"(*gopkg.in/yaml.v3.Node).indicatedString": true,
+	"(*gopkg.in/yaml.v3.Node).IsZero":          true,
+	"gopkg.in/yaml.v3.shortTag":                true,
+	"gopkg.in/yaml.v3.longTag":                 true,
+}
+
 const pkgPrefix = "github.com/rhysd/actionlint."
 
 func reg(name string, f intrinsic) { intrinsics[name] = f }
@@ -269,6 +279,13 @@ func init() {
 				i.mapOrderFns[f.(string)] = true
 			}
 		}
+		return nil
+	})
+	// verifMapOrderBudget(n): at most n symbolic iteration-order decisions per path
+	// (later iterations follow insertion order); 0 = unlimited
+	reg(pkgPrefix+"verifMapOrderBudget", func(fr *frame, a []value) value {
+		fr.i.mapOrderBudget = int(asInt64(a[0]))
+		fr.i.mapOrderUsed = 0
 		return nil
 	})
 	reg(pkgPrefix+"verifRecordMapRangers", func(fr *frame, a []value) value {
@@ -1316,6 +1333,43 @@ func init() {
 		}
 		return 4
 	})
+	// GOMAXPROCS is a setting of its own: in the model it is never equal to the number of CPUs
+	// (NumCPU + 3), so that code which bounds something by the wrong one of the two is visible
+	reg("runtime.GOMAXPROCS", func(fr *frame, a []value) value {
+		if fr.i.numCPU > 0 {
+			return fr.i.numCPU + 3
+		}
+		return 7
+	})
+	reg("(*regexp.Regexp).ReplaceAllStringFunc", func(fr *frame, a []value) value {
+		re := nativeOf(a[0]).(*regexp.Regexp)
+		i := fr.i
+		if s, ok := a[1].(string); ok {
+			return re.ReplaceAllStringFunc(s, func(m string) string {
+				r := call(i, fr, 0, a[2], []value{m})
+				return mustString(r, "ReplaceAllStringFunc result")
+			})
+		}
+		// symbolic text: leftmost-first matches found by the backtracking matcher
+		bs := strBytes(a[1])
+		var out value = ""
+		pos, last := 0, 0
+		for pos <= len(bs) {
+			caps := i.regexFindSubmatchIndex(re, bs, pos)
+			if caps == nil {
+				break
+			}
+			out = i.strConcat(out, mkStr(append([]value{}, bs[last:caps[0]]...)))
+			out = i.strConcat(out, call(i, fr, 0, a[2], []value{mkStr(append([]value{}, bs[caps[0]:caps[1]]...))}))
+			last = caps[1]
+			if caps[1] == caps[0] {
+				pos = caps[1] + 1
+			} else {
+				pos = caps[1]
+			}
+		}
+		return i.strConcat(out, mkStr(append([]value{}, bs[last:]...)))
+	})
 	reg(pkgPrefix+"verifSetNumCPU", func(fr *frame, a []value) value {
 		fr.i.numCPU = int(asInt64(a[0]))
 		return nil
@@ -1455,6 +1509,29 @@ func init() {
 			}
 		}
 		return nil
+	})
+	// yaml.v3's implicit-tag resolution, reached from (*Node).ShortTag for a scalar without a tag:
+	// native on concrete text (only the tag is used by the caller)
+	reg("gopkg.in/yaml.v3.resolve", func(fr *frame, a []value) value {
+		tag, ok1 := a[0].(string)
+		in, ok2 := a[1].(string)
+		if ok1 && tag == "" && !ok2 {
+			// symbolic text: exact for the null spellings; any other text gets one of the other
+			// implicit tags (free choice: an over-approximation, replayed natively before it is believed)
+			i := fr.i
+			for _, sp := range []string{"", "~", "null", "Null", "NULL"} {
+				if i.decide(i.strEqTerm(a[1], sp)) {
+					return tuple{"!!null", iface{}}
+				}
+			}
+			tags := []string{"!!str", "!!bool", "!!int", "!!float", "!!timestamp", "!!merge"}
+			return tuple{tags[i.choose(len(tags), "yaml-implicit-tag")], iface{}}
+		}
+		if !ok1 || !ok2 || tag != "" {
+			panic(unsupported{"yaml.v3 resolve with an explicit tag"})
+		}
+		n := yaml.Node{Kind: yaml.ScalarNode, Value: in}
+		return tuple{n.ShortTag(), iface{}}
 	})
 	reg("(*sync.Once).Do", func(fr *frame, a []value) value {
 		i := fr.i
